@@ -101,7 +101,7 @@ def run_qsyntax(sx, lname, rname, let_from_let=False):
                 for s in st[1:]:
                     emit(Q, env, s)
         elif k == "subcircuit_block":
-            with Q.subcircuit(val(env, st[1])):
+            with (Q.subcircuit() if st[1] == "" else Q.subcircuit(val(env, st[1]))):
                 for s in st[2:]:
                     emit(Q, env, s)
         else:
